@@ -1,10 +1,11 @@
 --------------------------- MODULE GenManifestLex ---------------------------
-(* C31 case generator.  Mode "seq": all token sequences over `Alpha` up to length K (BFS) or
+(* C31 case generator.  Mode "seq": all token sequences over `Alpha` up to length K (BFS) or (Mode "cross") all single
+   tokens and all pairs touching the core alphabet, or
    random ones (-simulate with Rand = TRUE); Mode "tmpl": all single edits of the instruction
    templates.  Every sequence is printed once per layout of LayoutsFor(seq, R) as a rendered
    case (the harness joins the tokens of a line with one space and appends the terminator). *)
 EXTENDS ManifestLex, Json
-CONSTANTS Mode, AlphaName, K, R, Shift, Rand
+CONSTANTS Mode, AlphaName, K, R, Shift, Rand, TemplateSet
 VARIABLES seq, tk        \* tk: 0 = no template chosen yet, k = template k chosen, -1 = edited
 Alpha == IF AlphaName = "core" THEN Core ELSE IF AlphaName = "mid" THEN Mid(Shift) ELSE 1..NA
 GInit == seq = <<>> /\ tk = 0
@@ -12,12 +13,19 @@ GInit == seq = <<>> /\ tk = 0
 \* invariant (which prints) on every generated successor, not only on the chosen one
 Extend == /\ Mode = "seq" /\ Len(seq) < K /\ UNCHANGED tk
           /\ \E a \in (IF Rand THEN {RandomElement(Alpha)} ELSE Alpha) : seq' = Append(seq, a)
+\* Mode "cross": every single alphabet element, and every pair with at least one element of the
+\* structural core (keywords, punctuation, one literal of each class) - independent of any seed
+Cross == /\ Mode = "cross" /\ Len(seq) < 2 /\ UNCHANGED tk
+         /\ \E a \in (IF seq = <<>> \/ seq[1] \in Core THEN 1..NA ELSE Core) : seq' = Append(seq, a)
 \* two steps so that the edits of different templates are produced by different TLC workers
-ChooseTemplate == Mode = "tmpl" /\ tk = 0 /\ tk' \in 1..Len(Templates) /\ seq' = TIdx[tk']
+ChooseTemplate == Mode = "tmpl" /\ tk = 0 /\ tk' \in (TemplateSet \cap (1..Len(Templates))) /\ seq' = TIdx[tk']
 EditTemplate == Mode = "tmpl" /\ tk > 0 /\ tk' = -1 /\ IsEditOf(seq', TIdx[tk], Alpha)
-GNext == Extend \/ ChooseTemplate \/ EditTemplate
+GNext == Extend \/ Cross \/ ChooseTemplate \/ EditTemplate
 GSpec == GInit /\ [][GNext]_<<seq, tk>>
-Emit == Len(seq) >= 1 => \A l \in LayoutsFor(seq, R) : PrintT(<<"B", ToJson(Case(seq, l))>>)
+LayoutsOf == LayoutsFor(seq, R)
+             \cup (IF Len(seq) = 1 THEN ExtraFixed \cup BoundaryLayouts ELSE {})
+             \cup (IF Mode = "tmpl" THEN ExtraFixed ELSE {})
+Emit == Len(seq) >= 1 => \A l \in LayoutsOf : PrintT(<<"B", ToJson(Case(seq, l))>>)
 \* the alphabet itself (for the token-level mutation driver)
 ASSUME PrintT(<<"A", ToJson([i \in 1..NA |-> Alphabet[i].t])>>)
 =============================================================================
